@@ -104,7 +104,7 @@ class VirtualClock:
         class VTime:
             @staticmethod
             def time() -> float:
-                # -0.25 ms: `mtime_ms < now_ms - grace` (garbage_collector.py:250) then behaves exactly like
+                # -0.25 ms: `mtime_ms < now_ms - grace` (garbage_collector.py:299) then behaves exactly like
                 # the integer comparison of History.tla at the boundary age == grace, whatever the
                 # float rounding of st_mtime
                 return (clock.now_ms - 0.25) / 1000.0
@@ -605,14 +605,21 @@ class Replayer:
             hit = sorted(gone & keep_before)
             if hit:
                 viol("gc", "gc-deleted-live", f"collect(grace={op['g']}) deleted reachable/in-flight files {hit}")
-            if res == "ok":
+            if res in ("ok", "aborted") and not missing:
+                # liveness half: with every reachable file present there is no reason to abort, and every
+                # unreferenced unprotected file OLDER than grace must be gone (age == grace: either way)
                 for k in ("d", "m", "l"):
                     for f in after[k]:
                         if f in must_keep:
                             continue
-                        age = self.clock.now_ms - int(round(self.reader.mtime(f) * 1000))
+                        try:
+                            age = self.clock.now_ms - int(round(self.reader.mtime(f) * 1000))
+                        except OSError:
+                            continue
                         if age > op["g"]:
-                            viol("gc", f"gc-orphan-survives:{k}", f"collect(grace={op['g']}) left unreferenced {f} of age {age} ms")
+                            why = "left" if res == "ok" else f"aborted ({err}) and left"
+                            viol("gc", f"gc-orphan-survives:{k}" + (":aborted" if res == "aborted" else ""),
+                                 f"collect(grace={op['g']}) {why} unreferenced {f} of age {age} ms")
             obs["gc"] = {"deleted": {k: len(deleted[k]) for k in ("d", "m", "l")}, "aborted": res == "aborted"}
         if missing:
             viol("gc" if kind == "collect" else "c09", f"reachable-missing:{kind}", f"after {op}: reachable/in-flight files missing: {missing}")
@@ -632,7 +639,10 @@ class Replayer:
         files = [e["file"] for e in _entries(s["mans"])]
         rows: List[Dict[str, Any]] = []
         for f in dict.fromkeys(files):
-            rows.extend(project.read_rows(self.reader, f))
+            try:
+                rows.extend(project.read_rows(self.reader, f))
+            except Exception:  # noqa: BLE001 - committed over a file that is already gone (e.g. deleted by an
+                pass           # earlier collection): reported by the reachable-missing / retained-changed oracles
         return {
             "snap": {k: s[k] for k in ("id", "seq", "ts", "list")},
             "list_sha": self._sha(s["list"]),
